@@ -16,15 +16,15 @@ Definition decoded_file (o : dopts) (h : header) (g : gstate) (rs : list record)
   end.
 
 Definition in_domain (h : header) (g : gstate) (rs : list record) : Prop :=
-  starts_with_file_id rs = true /\ stream_wf rs = true /\ no_time_quirk rs = true /\
+  starts_with_file_id rs = true /\ stream_wf rs = true /\
   exists ss f2 g1, denote rs = Some ss /\ start_file h g (hd dummy_msg (ss_msgs ss)) = Some (f2, g1).
 
 (* the decoded File is a function of the denoted message list *)
 Theorem decoded_is_routed : forall o h g rs ss, in_domain h g rs -> denote rs = Some ss ->
   decoded_file o h g rs = route_msgs h g (ss_msgs ss) /\ decoded_file o h g rs <> None.
 Proof.
-  intros o h g rs ss (Hs & Hwf & Hq & ss' & f2 & g1 & Hden & Hst) Hd. rewrite Hd in Hden. inversion Hden; subst ss'.
-  destruct (decode_denote_abstract o h g rs ss f2 g1 [] TEOF Hs Hwf Hq Hd Hst) as (s1 & f & g' & Hrun & Hroute & Hf & Hg & _).
+  intros o h g rs ss (Hs & Hwf & ss' & f2 & g1 & Hden & Hst) Hd. rewrite Hd in Hden. inversion Hden; subst ss'.
+  destruct (decode_denote_abstract o h g rs ss f2 g1 [] TEOF Hs Hwf Hd Hst) as (s1 & f & g' & Hrun & Hroute & Hf & Hg & _).
   unfold decoded_file. rewrite app_nil_r in Hrun. rewrite Hrun, Hroute, Hf, Hg. split; [reflexivity|discriminate].
 Qed.
 
@@ -43,7 +43,7 @@ Theorem unknown_record_skipped_decoder : forall o h g rs1 l pay dev rs2 sm d,
   decoded_file o h g (rs1 ++ RData l pay dev :: rs2) = decoded_file o h g (rs1 ++ rs2).
 Proof.
   intros o h g rs1 l pay dev rs2 sm d Hsm Hl Hk D D'.
-  destruct D as (Hs & Hwf & Hq & ss & f2 & g1 & Hden & Hst). pose proof Hden as Hden0. unfold denote in Hden.
+  destruct D as (Hs & Hwf & ss & f2 & g1 & Hden & Hst). pose proof Hden as Hden0. unfold denote in Hden.
   destruct (unknown_record_deletable rs1 l pay dev rs2 ss_init sm d ss Hsm Hl Hk Hden) as (s2 & Hd2 & Hcore).
   apply (same_messages_same_file o h g _ _ ss s2); try assumption.
   - repeat split; try assumption. exists ss, f2, g1. split; assumption.
@@ -57,7 +57,7 @@ Theorem redefinition_invisible_decoder : forall o h g l rs0 be1 g1' f1 v1 x1 be2
   decoded_file o h g (rs0 ++ RDef l be1 g1' f1 v1 x1 :: rs) = decoded_file o h g (rs0 ++ RDef l be2 g2 f2' v2 x2 :: rs).
 Proof.
   intros o h g l rs0 be1 g1' f1 v1 x1 be2 g2 f2' v2 x2 rs Hno D D'.
-  pose proof D as (_ & _ & _ & ss & _ & _ & Hden & _). pose proof D' as (_ & _ & _ & ss' & _ & _ & Hden' & _).
+  pose proof D as (_ & _ & ss & _ & _ & Hden & _). pose proof D' as (_ & _ & ss' & _ & _ & Hden' & _).
   apply (same_messages_same_file o h g _ _ ss ss'); try assumption.
   unfold denote in Hden, Hden'.
   destruct (redefinition_invisible l rs0 be1 g1' f1 v1 x1 be2 g2 f2' v2 x2 rs ss_init ss Hno Hden) as (s2 & Hd2 & Hm & _).
@@ -72,7 +72,7 @@ Lemma sorted_unkf_is_sort ss : sorted_unkf ss = sort_unkf (ss_unkf ss).
 Proof. reflexivity. Qed.
 
 Theorem unknown_counts_exact : forall o h g rs ss1 f2 g1 tl t,
-  starts_with_file_id rs = true -> stream_wf rs = true -> no_time_quirk rs = true -> denote rs = Some ss1 ->
+  starts_with_file_id rs = true -> stream_wf rs = true -> denote rs = Some ss1 ->
   start_file h g (hd dummy_msg (ss_msgs ss1)) = Some (f2, g1) ->
   let L := List.length (ser_records rs) in
   exists s1,
@@ -81,8 +81,8 @@ Theorem unknown_counts_exact : forall o h g rs ss1 f2 g1 tl t,
     (o_unkm o = true -> f_unkm (finalize_unknown o s1) = Some (sorted_unkm ss1)) /\
     (o_unkf o = true -> f_unkf (finalize_unknown o s1) = Some (sorted_unkf ss1)).
 Proof.
-  intros o h g rs ss1 f2 g1 tl t Hs Hwf Hq Hd Hst L.
-  destruct (decode_denote_abstract o h g rs ss1 f2 g1 tl t Hs Hwf Hq Hd Hst) as (s1 & f & g' & Hrun & _ & _ & _ & Hm & Hf & _).
+  intros o h g rs ss1 f2 g1 tl t Hs Hwf Hd Hst L.
+  destruct (decode_denote_abstract o h g rs ss1 f2 g1 tl t Hs Hwf Hd Hst) as (s1 & f & g' & Hrun & _ & _ & _ & Hm & Hf & _).
   exists s1. split; [exact Hrun|]. unfold finalize_unknown. cbn [f_unkm f_unkf]. split; intros Ho; rewrite Ho.
   - now rewrite (Hm Ho), sorted_unkm_is_sort.
   - now rewrite (Hf Ho), sorted_unkf_is_sort.
